@@ -359,6 +359,9 @@ fn check_codec(rt: &tokio::runtime::Runtime, list_name: &str, chunks: &[Vec<u8>]
             }
         }
     }
+    if chunks.len() <= 20 && buf.len() < 400_000 {
+        check_writer_variants(rt, &ctx, chunks, &buf, &stored);
+    }
     buf
 }
 
@@ -445,6 +448,7 @@ fn check_xorb(rng: &mut StdRng, list_name: &str, chunks: &[Vec<u8>], sname: &str
     }
     let off = |k: usize| if k == 0 { 0usize } else { t.unpacked[k - 1] as usize };
     let phys = |k: usize| if k == 0 { 0u32 } else { w.boundaries[k - 1] };
+    check_range_api(&ctx, &parsed, &bytes, &t, &ranges);
     for (i, j) in ranges {
         let got = guarded(&ctx, || parsed.get_bytes_by_chunk_range(r, i as u32, j as u32));
         match got {
@@ -652,7 +656,19 @@ fn validate_both(rt: &tokio::runtime::Runtime, ctx: &str, bytes: &[u8], h: &Merk
         rt.block_on(async { let mut r: &[u8] = bytes; validate_cas_object_from_async_read(&mut r, h).await })
     });
     match stream {
-        Ok(Some((cas, _))) => judge("the streaming validator validate_cas_object_from_async_read", Some(cas), expect_stream, None),
+        Ok(Some((cas, go_back))) => {
+            // documented: footer present -> (footer as parsed, None); footer-less -> (generated footer with info_length 0, Some(0))
+            // (ident followed by version byte 0 = V0: the validator stops there, builds a footer and asks to go back those 8 bytes)
+            let want = match walk(bytes).ok().and_then(|w| w.footer_at) {
+                Some(f) if bytes[f + 7] == 0 => (Some(8usize), 0u32),
+                Some(f) => (None, (bytes.len() - f).saturating_sub(4) as u32),
+                None => (Some(0usize), 0u32),
+            };
+            if (go_back, cas.info_length) != want {
+                witness(format!("{ctx}: the streaming validator accepts the object with go_back_bytes {go_back:?} and info_length {}, documented are {:?} and {}", cas.info_length, want.0, want.1));
+            }
+            judge("the streaming validator validate_cas_object_from_async_read", Some(cas), expect_stream, None)
+        },
         Ok(None) => judge("the streaming validator validate_cas_object_from_async_read", None, expect_stream, None),
         Err(e) => judge("the streaming validator validate_cas_object_from_async_read", None, expect_stream, Some(e.to_string())),
     }
@@ -766,6 +782,30 @@ fn check_validators(rt: &tokio::runtime::Runtime, rng: &mut StdRng, list_name: &
         }
         validate_both(rt, &format!("{base}, truncated to its first {c} of {} bytes", bytes.len()), &bytes[..c], &t.root, Reject, Reject);
     }
+    // 8. bytes after the end of the xorb, a second footer, bytes between the chunk section and the footer
+    for extra in [vec![0u8], vec![0u8; 4], vec![0u8; 8], bytes[bytes.len() - 4..].to_vec(), bytes[footer_at..].to_vec()] {
+        let mut m = bytes.to_vec();
+        m.extend_from_slice(&extra);
+        validate_both(rt, &format!("{base}, followed by {} further bytes ({})", extra.len(), if extra.len() > 8 { "a second copy of its footer and length field".to_string() } else { format!("{extra:02x?}") }), &m, &t.root, Reject, Reject);
+    }
+    {
+        // 8 zero bytes form a well-formed EMPTY stored chunk: one chunk more than the footer lists
+        let mut m = bytes[..footer_at].to_vec();
+        m.extend_from_slice(&[0u8; 8]);
+        m.extend_from_slice(&bytes[footer_at..]);
+        validate_both(rt, &format!("{base}, with 8 zero bytes (an empty stored chunk) inserted between the chunk section and the footer"), &m, &t.root, Reject, Reject);
+        let mut m = bytes[..footer_at].to_vec();
+        m.extend_from_slice(&[0x11u8; 3]);
+        m.extend_from_slice(&bytes[footer_at..]);
+        validate_both(rt, &format!("{base}, with 3 stray bytes inserted between the chunk section and the footer"), &m, &t.root, Reject, Reject);
+        for g in [1usize, 4, 7] {
+            let mut m = bytes[..footer_at].to_vec();
+            m.extend(std::iter::repeat(0u8).take(g));
+            validate_both(rt, &format!("{base}, sent without footer but followed by {g} zero bytes"), &m, &t.root, Reject, Reject);
+        }
+    }
+    // 9. the same chunk section under a V0 footer
+    check_v0_xorb(rt, &base, bytes, footer_at, &w, t, n <= 16);
     // 7. byte flips over every chunk header and the whole footer (soundness oracle decides)
     if exhaustive {
         let mut positions: Vec<usize> = (footer_at..bytes.len()).collect();
@@ -798,7 +838,19 @@ fn main() {
         eprintln!("note: only {} of 3 equal-length chunks found", eqs.len());
     }
 
+    let t0 = std::time::Instant::now();
+    let lap = |what: &str| eprintln!("[{:6.2} s] {what}", t0.elapsed().as_secs_f64());
     check_synthetic_lengths();
+    lap("synthetic lengths");
+    check_text_forms(&mut rng, seed);
+    lap("text forms");
+    check_header_classes(&rt);
+    lap("header classes");
+    check_bg4_and_codec_api(&mut rng);
+    lap("bg4 / codec api");
+    check_synthetic_footers();
+    check_long_frames(&rt);
+    lap("synthetic footers, long frames");
     decode_probe(&rt, || "program start".to_string());
     check_damaged_end_mark(&rt);
 
@@ -831,10 +883,12 @@ fn main() {
         }
     }
     // more chunks than the footer parsers' pre-allocation cap (AVERAGE_NUM_CHUNKS_PER_XORB * 9 / 8 = 1152), up to the format's usual maximum
-    for n in [1152usize, 1153, 3000, 8192] {
+    for n in [1152usize, 1153, 3000, 8192, 8193] {
         let many: Vec<Vec<u8>> = (0..n).map(|i| vec![(i % 251) as u8; 1 + i % 5]).collect();
         lists.push((format!("{n} chunks of 1..5 bytes"), many, false));
     }
+    // empty chunks are outside the quantification of C07 (lengths 1..max) but are representable: the stack must stay consistent
+    lists.push(("with two empty chunks".into(), vec![text(50), vec![], random(&mut rng, 20), random(&mut rng, 7), vec![], text(9), random(&mut rng, 3)], false));
     let residues: Vec<Vec<u8>> = (1..=11usize).chain(20_000..20_004).map(|n| floats(&mut rng, n)).collect();
     lists.push(("float data of every length residue mod 4".into(), residues, false));
 
@@ -844,7 +898,13 @@ fn main() {
             let (bytes, t) = check_xorb(&mut rng, name, chunks, sname, scheme);
             check_validators(&rt, &mut rng, name, chunks, sname, scheme, &bytes, &t, *exhaustive);
         }
+        if chunks.len() > 1000 || *exhaustive {
+            lap(&format!("list '{name}'"));
+        }
     }
+    lap("lists");
+    check_local_client(&rt, &lists);
+    lap("local client");
     // hand-built chunk sections whose headers are individually within the limits but do not describe their payload: a STORED chunk
     // (scheme 0) whose stored length differs from its unpacked length (padding between chunks / a chunk overlapping its successor),
     // as first, middle and last chunk, with a footer that is consistent with the headers and a root over what a reader trusting the
@@ -905,4 +965,862 @@ fn main() {
     }
     eprintln!("{} decode probes", N_PROBES.load(std::sync::atomic::Ordering::Relaxed));
     println!("no violation found");
+}
+
+// =================================================================================================================================
+// Coverage extensions (round 7): `*_to_writer` entry points with failing writers, chunk-header classes at and beyond the limits,
+// invalid chunk ranges, range-verification hashes, footers at the u32 boundaries, V0-footered xorbs, the text forms of hashes,
+// every byte-grouping variant, hand-made LZ4 frames longer than a chunk, LocalClient put / get.
+// =================================================================================================================================
+
+/// the published keys (merklehash::data_hash, mdb_shard::chunk_verification)
+const DATA_KEY: [u8; 32] = [102, 151, 245, 119, 91, 149, 80, 222, 49, 53, 203, 172, 165, 151, 24, 28, 157, 228, 33, 16, 155, 235, 43, 88, 180, 208, 176, 75, 147, 173, 242, 41];
+const INTERNAL_NODE_KEY: [u8; 32] = [1, 126, 197, 199, 165, 71, 41, 150, 253, 148, 102, 102, 180, 138, 2, 230, 93, 221, 83, 111, 55, 199, 109, 210, 248, 99, 82, 230, 74, 83, 113, 63];
+const VERIFICATION_KEY: [u8; 32] = [127, 24, 87, 214, 206, 86, 237, 102, 18, 127, 249, 19, 231, 165, 195, 243, 164, 205, 38, 213, 181, 219, 73, 230, 65, 36, 152, 127, 40, 251, 148, 195];
+
+/// the 32 bytes of a hash: its four words, little-endian, in order
+fn hash_bytes(h: &MerkleHash) -> [u8; 32] {
+    let mut o = [0u8; 32];
+    for w in 0..4 {
+        o[8 * w..8 * w + 8].copy_from_slice(&h[w].to_le_bytes());
+    }
+    o
+}
+fn hash_from_bytes(b: &[u8; 32]) -> MerkleHash {
+    MerkleHash::from([0, 1, 2, 3].map(|w| u64::from_le_bytes(b[8 * w..8 * w + 8].try_into().unwrap())))
+}
+
+// ---------------------------------------------------------------------------------------------------------------------------------
+// (f) *_to_writer
+// ---------------------------------------------------------------------------------------------------------------------------------
+
+struct ScriptedWriter {
+    out: Vec<u8>,
+    calls: usize,
+    fail_at: Option<usize>,
+    /// fail by answering Ok(0) instead of Err
+    zero: bool,
+}
+impl std::io::Write for ScriptedWriter {
+    fn write(&mut self, buf: &[u8]) -> std::io::Result<usize> {
+        let k = self.calls;
+        self.calls += 1;
+        if Some(k) == self.fail_at && !buf.is_empty() {
+            return if self.zero { Ok(0) } else { Err(std::io::Error::new(std::io::ErrorKind::Other, "scripted write failure")) };
+        }
+        self.out.extend_from_slice(buf);
+        Ok(buf.len())
+    }
+    fn flush(&mut self) -> std::io::Result<()> {
+        Ok(())
+    }
+}
+
+fn check_writer_variants(rt: &tokio::runtime::Runtime, ctx: &str, chunks: &[Vec<u8>], buf: &[u8], stored: &[usize]) {
+    use cas_object::deserialize_async::{deserialize_chunk_to_writer as chunk_to_writer_async, deserialize_chunks_to_writer_from_async_read, deserialize_chunks_to_writer_from_stream};
+    use cas_object::{deserialize_chunk_to_writer, deserialize_chunks_to_writer};
+    let data = chunks.concat();
+    let mut want_idx = vec![0u32];
+    for c in chunks {
+        want_idx.push(want_idx.last().unwrap() + c.len() as u32);
+    }
+    // every entry point as a closure over the writer: Ok((stored bytes consumed, boundaries or the single unpacked length)) / Err
+    type R = Result<(usize, Vec<u32>), String>;
+    let entry: Vec<(&str, bool, Box<dyn Fn(&mut ScriptedWriter) -> R + '_>)> = vec![
+        ("sync deserialize_chunk_to_writer", true, Box::new(|w| deserialize_chunk_to_writer(&mut Cursor::new(buf), w).map(|(c, u)| (c, vec![u])).map_err(|e| e.to_string()))),
+        ("async deserialize_chunk_to_writer", true, Box::new(|w| rt.block_on(async { let mut r: &[u8] = buf; chunk_to_writer_async(&mut r, w).await }).map(|(c, u)| (c, vec![u])).map_err(|e| e.to_string()))),
+        ("sync deserialize_chunks_to_writer", false, Box::new(|w| deserialize_chunks_to_writer(&mut Cursor::new(buf), w).map_err(|e| e.to_string()))),
+        ("async deserialize_chunks_to_writer_from_async_read", false, Box::new(|w| rt.block_on(async { let mut r: &[u8] = buf; deserialize_chunks_to_writer_from_async_read(&mut r, w).await }).map_err(|e| e.to_string()))),
+        ("deserialize_chunks_to_writer_from_stream (items of 11 bytes)", false, Box::new(|w| {
+            let pieces: Vec<Result<bytes::Bytes, std::io::Error>> = buf.chunks(11).map(|p| Ok(bytes::Bytes::copy_from_slice(p))).collect();
+            rt.block_on(async { deserialize_chunks_to_writer_from_stream(futures::stream::iter(pieces), w).await }).map_err(|e| e.to_string())
+        })),
+    ];
+    for (name, single, f) in &entry {
+        let (want_data, want_ret): (&[u8], (usize, Vec<u32>)) = if *single { (&chunks[0][..], (stored[0], vec![chunks[0].len() as u32])) } else { (&data[..], (buf.len(), want_idx.clone())) };
+        let mut good = ScriptedWriter { out: vec![], calls: 0, fail_at: None, zero: false };
+        match guarded(&format!("{ctx}: {name}"), || f(&mut good)) {
+            Ok(ret) if ret == want_ret && good.out == want_data => {},
+            Ok(ret) => witness(format!("{ctx}: {name} returns (stored bytes consumed, unpacked lengths / boundaries) = ({}, {:?}...) and hands {} bytes to the writer; the input has ({}, {:?}...) and {} bytes{}", ret.0, &ret.1[..ret.1.len().min(4)], good.out.len(), want_ret.0, &want_ret.1[..want_ret.1.len().min(4)], want_data.len(), if good.out == want_data { "" } else { " (content differs)" })),
+            Err(e) => witness(format!("{ctx}: {name} fails with a writer that accepts everything: {e}")),
+        }
+        let total_calls = good.calls;
+        if want_data.is_empty() || total_calls == 0 {
+            continue;
+        }
+        let mut points = vec![0usize, total_calls / 2, total_calls - 1];
+        points.dedup();
+        for at in points {
+            for zero in [false, true] {
+                let mut w = ScriptedWriter { out: vec![], calls: 0, fail_at: Some(at), zero };
+                let how = if zero { "answers Ok(0)" } else { "fails with an I/O error" };
+                let r = guarded(&format!("{ctx}: {name} with a writer that {how} at write call #{at} of {total_calls}"), || f(&mut w));
+                if let Ok(ret) = r {
+                    witness(format!("{ctx}: {name} returns Ok(({}, {:?}...)) although the writer {how} at write call #{at} of {total_calls} (the writer holds {} of {} bytes)", ret.0, &ret.1[..ret.1.len().min(4)], w.out.len(), want_data.len()));
+                }
+                if w.calls <= at {
+                    witness(format!("{ctx}: {name}: the writer saw only {} write calls in the failing run, {total_calls} in the good run", w.calls));
+                }
+            }
+        }
+    }
+}
+
+// ---------------------------------------------------------------------------------------------------------------------------------
+// (g) chunk header classes
+// ---------------------------------------------------------------------------------------------------------------------------------
+
+fn header(version: u8, clen: usize, scheme: u8, ulen: usize) -> [u8; 8] {
+    [version, clen as u8, (clen >> 8) as u8, (clen >> 16) as u8, scheme, ulen as u8, (ulen >> 8) as u8, (ulen >> 16) as u8]
+}
+
+/// parse_chunk_header / sync and async deserialize_chunk_header accept exactly: version 0, scheme 0..=2, stored length <= 2 * maximum
+/// chunk size, unpacked length <= maximum chunk size - and then report the fields as written
+fn check_header_classes(rt: &tokio::runtime::Runtime) {
+    use cas_object::deserialize_async::deserialize_chunk_header as header_async;
+    use cas_object::{deserialize_chunk_header, parse_chunk_header};
+    let maxc = merkledb::constants::MAXIMUM_CHUNK_SIZE;
+    let clens = [0usize, 1, maxc, 2 * maxc - 1, 2 * maxc, 2 * maxc + 1, (1 << 24) - 1];
+    let ulens = [0usize, 1, maxc - 1, maxc, maxc + 1, 2 * maxc, (1 << 24) - 1];
+    for version in [0u8, 1, 2, 0x58, 255] {
+        for scheme in 0..=255u8 {
+            for &clen in &clens {
+                for &ulen in &ulens {
+                    let h = header(version, clen, scheme, ulen);
+                    let valid = version == 0 && scheme <= 2 && clen <= 2 * maxc && ulen <= maxc;
+                    let what = format!("chunk header {h:02x?} (version {version}, stored length {clen}, scheme byte {scheme}, unpacked length {ulen}; maximum chunk size {maxc})");
+                    let fields = |x: &cas_object::CASChunkHeader| (x.version, x.get_compressed_length() as usize, x.get_compression_scheme().map(|s| s as u8).unwrap_or(99), x.get_uncompressed_length() as usize);
+                    let mut answers = vec![
+                        ("parse_chunk_header", guarded(&what, || parse_chunk_header(h)).map(|x| fields(&x)).map_err(|e| e.to_string())),
+                        ("sync deserialize_chunk_header", guarded(&what, || deserialize_chunk_header(&mut Cursor::new(&h[..]))).map(|x| fields(&x)).map_err(|e| e.to_string())),
+                    ];
+                    // the async twin on a subset (same validation code path): all schemes at two length pairs, all lengths at schemes 0..=3
+                    if scheme <= 3 || (clen == 1 && ulen == 1) || (clen == 2 * maxc && ulen == maxc) {
+                        answers.push(("async deserialize_chunk_header", guarded(&what, || rt.block_on(async { let mut r: &[u8] = &h; header_async(&mut r).await })).map(|x| fields(&x)).map_err(|e| e.to_string())));
+                    }
+                    for (name, a) in answers {
+                        match a {
+                            Ok(f) if valid && f == (version, clen, scheme, ulen) => {},
+                            Err(_) if !valid => {},
+                            Ok(f) => witness(format!("{name} ACCEPTS {what} and reports {f:?}; {}", if valid { "the fields differ from the bytes" } else { "the header is outside the format limits" })),
+                            Err(e) => witness(format!("{name} REJECTS the valid {what}: {e}")),
+                        }
+                    }
+                }
+            }
+        }
+    }
+    // truncated headers: 0..7 bytes
+    for n in 0..8usize {
+        let h = header(0, 5, 0, 5);
+        let what = format!("the first {n} bytes of a chunk header");
+        if guarded(&what, || deserialize_chunk_header(&mut Cursor::new(&h[..n]))).is_ok() || guarded(&what, || rt.block_on(async { let mut r: &[u8] = &h[..n]; header_async(&mut r).await })).is_ok() {
+            witness(format!("a chunk-header reader returns Ok on {what}"));
+        }
+    }
+    // CASChunkHeader::new writes the fields where the format puts them
+    for (scheme, clen, ulen) in [(CompressionScheme::None, 5u32, 5u32), (CompressionScheme::LZ4, 66051, 131072), (CompressionScheme::ByteGrouping4LZ4, 0x0A0B0C, 0x010203)] {
+        let hdr = cas_object::CASChunkHeader::new(scheme, clen, ulen);
+        let bytes: [u8; 8] = unsafe { std::mem::transmute_copy(&hdr) };
+        if bytes != header(0, clen as usize, scheme as u8, ulen as usize) {
+            witness(format!("CASChunkHeader::new({scheme:?}, {clen}, {ulen}) has the bytes {bytes:02x?}, the format says {:02x?}", header(0, clen as usize, scheme as u8, ulen as usize)));
+        }
+    }
+}
+
+/// Hand-made LZ4 frames made of 1-byte STORED blocks: the stored form is much longer than the chunk.  A stored length within
+/// (maximum chunk size, 2 * maximum chunk size] is inside the header limits and must decode everywhere; beyond, and with an unpacked
+/// length of maximum + 1, every decoder and validator must refuse.
+fn check_long_frames(rt: &tokio::runtime::Runtime) {
+    let maxc = merkledb::constants::MAXIMUM_CHUNK_SIZE;
+    let sample = lz4_flex::frame::FrameEncoder::new(Vec::new());
+    let mut sample = sample;
+    std::io::Write::write_all(&mut sample, b"x").unwrap();
+    let sample = sample.finish().unwrap();
+    let frame_header = &sample[..7]; // magic, FLG, BD, header checksum (no content size, no checksums in this configuration)
+    if sample[..4] != [0x04, 0x22, 0x4D, 0x18] || sample[4] & 0b0000_1100 != 0 {
+        println!("infrastructure: unexpected LZ4 frame descriptor {:02x?}", &sample[..7]);
+        std::process::exit(2);
+    }
+    let frame_of = |payload: &[u8]| -> Vec<u8> {
+        let mut f = frame_header.to_vec();
+        for b in payload {
+            f.extend_from_slice(&0x8000_0001u32.to_le_bytes());
+            f.push(*b);
+        }
+        f.extend_from_slice(&[0, 0, 0, 0]);
+        f
+    };
+    let cases: Vec<(String, Vec<u8>, Vec<u8>, bool)> = {
+        let mut v = vec![];
+        for n in [26_300usize, 50_000, (2 * maxc - 11) / 5, (2 * maxc - 11) / 5 + 1, 60_000] {
+            let payload: Vec<u8> = (0..n).map(|i| (i * 7 + i / 251) as u8).collect();
+            let frame = frame_of(&payload);
+            let valid = frame.len() <= 2 * maxc;
+            let mut stored = header(0, frame.len(), 1, n).to_vec();
+            stored.extend_from_slice(&frame);
+            v.push((format!("a chunk of {n} bytes stored as an LZ4 frame of {n} one-byte stored blocks ({} stored bytes; limit {})", frame.len(), 2 * maxc), payload, stored, valid));
+        }
+        for n in [maxc, maxc + 1] {
+            let payload = vec![0u8; n];
+            let mut enc = lz4_flex::frame::FrameEncoder::new(Vec::new());
+            std::io::Write::write_all(&mut enc, &payload).unwrap();
+            let frame = enc.finish().unwrap();
+            let mut stored = header(0, frame.len(), 1, n).to_vec();
+            stored.extend_from_slice(&frame);
+            v.push((format!("a chunk of {n} zero bytes (maximum chunk size {maxc}) stored as a regular LZ4 frame of {} bytes", frame.len()), payload.clone(), stored, n <= maxc));
+            let mut stored = header(0, n, 0, n).to_vec();
+            stored.extend_from_slice(&payload);
+            v.push((format!("a chunk of {n} zero bytes (maximum chunk size {maxc}) stored raw"), payload.clone(), stored, n <= maxc));
+        }
+        v
+    };
+    for (what, payload, stored, valid) in &cases {
+        match walk(stored) {
+            Ok(w) if w.chunks.len() == 1 && &w.chunks[0] == payload => {},
+            other => {
+                println!("infrastructure: the hand-made stored form of {what} does not decode with lz4_flex: {:?}", other.map(|w| w.chunks.len()));
+                std::process::exit(2);
+            },
+        }
+        let h = compute_data_hash(payload);
+        let answers: Vec<(&str, Option<bool>)> = vec![
+            ("sync deserialize_chunk", guarded(what, || deserialize_chunk(&mut Cursor::new(&stored[..]))).ok().map(|r| &r.0 == payload && r.1 == stored.len() && r.2 as usize == payload.len())),
+            ("async deserialize_chunk", guarded(what, || rt.block_on(async { let mut r: &[u8] = stored; deserialize_chunk_async(&mut r).await })).ok().map(|r| &r.0 == payload && r.1 == stored.len() && r.2 as usize == payload.len())),
+            ("sync deserialize_chunks", guarded(what, || deserialize_chunks(&mut Cursor::new(&stored[..]))).ok().map(|r| &r.0 == payload && r.1 == [0, payload.len() as u32])),
+            ("async deserialize_chunks_from_async_read", guarded(what, || rt.block_on(async { let mut r: &[u8] = stored; deserialize_chunks_from_async_read(&mut r).await })).ok().map(|r| &r.0 == payload && r.1 == [0, payload.len() as u32])),
+        ];
+        for (name, a) in answers {
+            match (a, valid) {
+                (Some(true), true) | (None, false) => {},
+                (Some(false), _) => witness(format!("{name} on {what} returns Ok with other bytes / lengths than the chunk's")),
+                (Some(true), false) => witness(format!("{name} ACCEPTS {what} although its header is outside the format limits")),
+                (None, true) => witness(format!("{name} REJECTS {what} although its header is within the format limits and the frame decodes")),
+            }
+        }
+        let e = if *valid { Expect::Accept } else { Expect::Reject };
+        // footer-less for the stream validator; with a footer (serialize_given_info) for both
+        validate_both(rt, &format!("{what}, sent as a footer-less single-chunk xorb"), stored, &h, Expect::Reject, e);
+        let mut info = cas_object::CasObjectInfoV1::default();
+        info.cashash = h;
+        info.num_chunks = 1;
+        info.chunk_hashes = vec![h];
+        info.chunk_boundary_offsets = vec![stored.len() as u32];
+        info.unpacked_chunk_offsets = vec![payload.len() as u32];
+        info.fill_in_boundary_offsets();
+        let mut cur = Cursor::new(stored.clone());
+        cur.set_position(stored.len() as u64);
+        CasObject::serialize_given_info(&mut cur, info).unwrap();
+        validate_both(rt, &format!("{what}, sent as a single-chunk xorb with footer"), &cur.into_inner(), &h, e, e);
+    }
+}
+
+// ---------------------------------------------------------------------------------------------------------------------------------
+// (h) invalid ranges, (i) range-verification hash
+// ---------------------------------------------------------------------------------------------------------------------------------
+
+fn check_range_api(ctx: &str, parsed: &CasObject, bytes: &[u8], t: &Truth, valid_ranges: &[(usize, usize)]) {
+    let n = t.list.len() as u32;
+    let own_range_hash = |i: usize, j: usize| -> MerkleHash {
+        let mut cat = vec![];
+        for (h, _) in &t.list[i..j] {
+            cat.extend_from_slice(&hash_bytes(h));
+        }
+        hash_from_bytes(blake3::keyed_hash(&VERIFICATION_KEY, &cat).as_bytes())
+    };
+    for &(i, j) in valid_ranges {
+        let want = own_range_hash(i, j);
+        match guarded(ctx, || parsed.generate_chunk_range_hash(i as u32, j as u32)) {
+            Ok(h) if h == want => {},
+            other => witness(format!("{ctx}: generate_chunk_range_hash({i}, {j}) gives {:?}, the keyed hash of the {} concatenated chunk hashes is {}", other.map(|h| h.hex()).map_err(|e| e.to_string()), j - i, want.hex())),
+        }
+        let lib = guarded(ctx, || mdb_shard::chunk_verification::range_hash_from_chunks(&t.list[i..j].iter().map(|x| x.0).collect::<Vec<_>>()));
+        if lib != want {
+            witness(format!("{ctx}: range_hash_from_chunks over chunks [{i}, {j}) gives {}, the keyed hash of the concatenated chunk hashes is {}", lib.hex(), want.hex()));
+        }
+    }
+    // sensitivity of the range hash: dropping the last chunk / exchanging two different neighbours changes it
+    if n >= 2 {
+        let a = own_range_hash(0, n as usize);
+        if guarded(ctx, || parsed.generate_chunk_range_hash(0, n - 1)).map(|h| h == a).unwrap_or(false) {
+            witness(format!("{ctx}: generate_chunk_range_hash(0, {}) equals the hash of the full range", n - 1));
+        }
+    }
+    let invalid: Vec<(u32, u32)> = vec![(0, 0), (n / 2, n / 2), (n, n), (1, 0), (n, 0), (n, n - 1), (0, n + 1), (n - 1, n + 1), (n, n + 1), (n + 1, n + 2), (u32::MAX, 0), (0, u32::MAX), (u32::MAX - 1, u32::MAX), (u32::MAX, u32::MAX)];
+    for (a, b) in invalid {
+        let what = format!("{ctx}: chunk range ({a}, {b}) of a xorb with {n} chunks");
+        if let Ok(d) = guarded(&what, || parsed.get_bytes_by_chunk_range(&mut Cursor::new(bytes), a, b)) {
+            witness(format!("{what}: get_bytes_by_chunk_range returns Ok with {} bytes", d.len()));
+        }
+        if let Ok(p) = guarded(&what, || parsed.get_byte_offset(a, b)) {
+            witness(format!("{what}: get_byte_offset returns Ok({p:?})"));
+        }
+        if let Ok(h) = guarded(&what, || parsed.generate_chunk_range_hash(a, b)) {
+            witness(format!("{what}: generate_chunk_range_hash returns Ok({})", h.hex()));
+        }
+        // (documented: start == end < num_chunks is the empty range of length 0)
+        match guarded(&what, || parsed.uncompressed_range_length(a, b)) {
+            Ok(0) if a == b && a < n => {},
+            Ok(l) => witness(format!("{what}: uncompressed_range_length returns Ok({l})")),
+            Err(_) => {},
+        }
+    }
+    for k in [n, n + 1, u32::MAX] {
+        if let Ok(l) = guarded(ctx, || parsed.uncompressed_chunk_length(k)) {
+            witness(format!("{ctx}: uncompressed_chunk_length({k}) on a xorb with {n} chunks returns Ok({l})"));
+        }
+    }
+}
+
+// ---------------------------------------------------------------------------------------------------------------------------------
+// (k) synthetic footers: u32 boundaries, incomplete info structs
+// ---------------------------------------------------------------------------------------------------------------------------------
+
+fn v1_layout(cashash: &MerkleHash, hashes: &[MerkleHash], bounds: &[u32], unpacked: &[u32]) -> Vec<u8> {
+    let n = hashes.len() as u32;
+    let boff = (7 + 1 + 4 + 4 * bounds.len() + 4 * unpacked.len() + 4 + 4 + 4 + 16) as u32;
+    let hoff = (7 + 1 + 4 + 32 * hashes.len()) as u32 + boff;
+    let mut v = vec![];
+    v.extend_from_slice(b"XETBLOB"); v.push(1); v.extend_from_slice(&hash_bytes(cashash));
+    v.extend_from_slice(b"XBLBHSH"); v.push(0); v.extend_from_slice(&n.to_le_bytes());
+    for h in hashes { v.extend_from_slice(&hash_bytes(h)); }
+    v.extend_from_slice(b"XBLBBND"); v.push(1); v.extend_from_slice(&n.to_le_bytes());
+    for b in bounds { v.extend_from_slice(&b.to_le_bytes()); }
+    for b in unpacked { v.extend_from_slice(&b.to_le_bytes()); }
+    v.extend_from_slice(&n.to_le_bytes()); v.extend_from_slice(&hoff.to_le_bytes()); v.extend_from_slice(&boff.to_le_bytes());
+    v.extend_from_slice(&[0u8; 16]);
+    v
+}
+fn v0_layout(cashash: &MerkleHash, hashes: &[MerkleHash], bounds: &[u32]) -> Vec<u8> {
+    let mut v = vec![];
+    v.extend_from_slice(b"XETBLOB"); v.push(0); v.extend_from_slice(&hash_bytes(cashash));
+    v.extend_from_slice(&(bounds.len() as u32).to_le_bytes());
+    for b in bounds { v.extend_from_slice(&b.to_le_bytes()); }
+    for h in hashes { v.extend_from_slice(&hash_bytes(h)); }
+    v.extend_from_slice(&[0u8; 16]);
+    v
+}
+
+fn check_synthetic_footers() {
+    use cas_object::CasObjectInfoV1;
+    let hs: Vec<MerkleHash> = (0..3).map(|k| compute_data_hash(format!("synthetic footer entry {k}").as_bytes())).collect();
+    let cashash = compute_data_hash(b"synthetic footer");
+    for (bounds, unpacked) in [
+        (vec![9u32, 0x8000_0000, u32::MAX], vec![1u32, 0x7FFF_FFFF, u32::MAX]),
+        (vec![u32::MAX - 2, u32::MAX - 1, u32::MAX], vec![u32::MAX - 2, u32::MAX - 1, u32::MAX]),
+        (vec![0x7FFF_FFFF, 0x8000_0000, 0x8000_0001], vec![0xFFFF_FFFE, 0xFFFF_FFFF, 0xFFFF_FFFF]),
+    ] {
+        let ctx = format!("synthetic footer of 3 chunks with chunk_boundary_offsets {bounds:?} and unpacked_chunk_offsets {unpacked:?} written by serialize_given_info");
+        let mut info = CasObjectInfoV1::default();
+        info.cashash = cashash;
+        info.num_chunks = 3;
+        info.chunk_hashes = hs.clone();
+        info.chunk_boundary_offsets = bounds.clone();
+        info.unpacked_chunk_offsets = unpacked.clone();
+        info.fill_in_boundary_offsets();
+        let mut cur = Cursor::new(vec![]);
+        let (cas, n) = guarded(&ctx, || CasObject::serialize_given_info(&mut cur, info)).unwrap_or_else(|e| witness(format!("{ctx}: fails: {e}")));
+        let bytes = cur.into_inner();
+        let mut want = v1_layout(&cashash, &hs, &bounds, &unpacked);
+        let il = want.len() as u32;
+        want.extend_from_slice(&il.to_le_bytes());
+        if bytes != want || n != bytes.len() || cas.info_length != il {
+            witness(format!("{ctx}: wrote {} bytes (reported {n}, info_length {}), the V1 layout has {} bytes{}", bytes.len(), cas.info_length, want.len(), if bytes.len() == want.len() { " with other content" } else { "" }));
+        }
+        let parsed = guarded(&ctx, || CasObject::deserialize(&mut Cursor::new(&bytes[..]))).unwrap_or_else(|e| witness(format!("{ctx}: CasObject::deserialize fails on it: {e}")));
+        if parsed != cas {
+            witness(format!("{ctx}: CasObject::deserialize returns another footer than serialize_given_info returned"));
+        }
+        let ub = |k: usize| if k == 0 { 0u32 } else { unpacked[k - 1] };
+        let pb = |k: usize| if k == 0 { 0u32 } else { bounds[k - 1] };
+        match guarded(&ctx, || parsed.get_contents_length()) {
+            Ok(l) if l == bounds[2] => {},
+            other => witness(format!("{ctx}: get_contents_length gives {other:?}")),
+        }
+        for i in 0..3usize {
+            match guarded(&ctx, || parsed.uncompressed_chunk_length(i as u32)) {
+                Ok(l) if l == unpacked[i] - ub(i) => {},
+                other => witness(format!("{ctx}: uncompressed_chunk_length({i}) gives {other:?}, the offsets say {}", unpacked[i] - ub(i))),
+            }
+            for j in i + 1..=3usize {
+                match guarded(&ctx, || parsed.uncompressed_range_length(i as u32, j as u32)) {
+                    Ok(l) if l == ub(j) - ub(i) => {},
+                    other => witness(format!("{ctx}: uncompressed_range_length({i}, {j}) gives {other:?}, the offsets say {}", ub(j) - ub(i))),
+                }
+                match guarded(&ctx, || parsed.get_byte_offset(i as u32, j as u32)) {
+                    Ok(p) if p == (pb(i), pb(j)) => {},
+                    other => witness(format!("{ctx}: get_byte_offset({i}, {j}) gives {other:?}, the offsets say ({}, {})", pb(i), pb(j))),
+                }
+            }
+        }
+    }
+    // info structs that are not complete: every accessor must answer Err, none may panic
+    let complete = || {
+        let mut info = CasObjectInfoV1::default();
+        info.cashash = cashash;
+        info.num_chunks = 3;
+        info.chunk_hashes = hs.clone();
+        info.chunk_boundary_offsets = vec![10, 20, 30];
+        info.unpacked_chunk_offsets = vec![2, 4, 6];
+        info.fill_in_boundary_offsets();
+        info
+    };
+    let mut broken: Vec<(&str, CasObjectInfoV1)> = vec![];
+    broken.push(("the default (no chunks)", CasObjectInfoV1::default()));
+    let mut i = complete(); i.num_chunks = 0; broken.push(("num_chunks 0 with three table entries", i));
+    let mut i = complete(); i.cashash = MerkleHash::default(); broken.push(("the all-zero cashash", i));
+    let mut i = complete(); i.num_chunks = 4; broken.push(("num_chunks 4 with three table entries", i));
+    let mut i = complete(); i.num_chunks = 2; broken.push(("num_chunks 2 with three table entries", i));
+    let mut i = complete(); i.chunk_hashes.pop(); broken.push(("one chunk hash missing", i));
+    let mut i = complete(); i.chunk_boundary_offsets.pop(); broken.push(("one boundary offset missing", i));
+    let mut i = complete(); i.unpacked_chunk_offsets.pop(); broken.push(("one unpacked offset missing", i));
+    let mut i = complete(); i.unpacked_chunk_offsets.clear(); broken.push(("no unpacked offsets under boundaries_version 1", i));
+    let some_bytes = vec![0u8; 64];
+    for (name, info) in broken {
+        let cas = CasObject { info, info_length: 0 };
+        let ctx = format!("CasObject whose info has {name}");
+        let answers: Vec<(&str, bool)> = vec![
+            ("get_contents_length", guarded(&ctx, || cas.get_contents_length()).is_ok()),
+            ("get_all_bytes", guarded(&ctx, || cas.get_all_bytes(&mut Cursor::new(&some_bytes[..]))).is_ok()),
+            ("get_bytes_by_chunk_range(0, 1)", guarded(&ctx, || cas.get_bytes_by_chunk_range(&mut Cursor::new(&some_bytes[..]), 0, 1)).is_ok()),
+            ("get_byte_offset(0, 1)", guarded(&ctx, || cas.get_byte_offset(0, 1)).is_ok()),
+            ("generate_chunk_range_hash(0, 1)", guarded(&ctx, || cas.generate_chunk_range_hash(0, 1)).is_ok()),
+            ("uncompressed_chunk_length(0)", guarded(&ctx, || cas.uncompressed_chunk_length(0)).is_ok()),
+            ("uncompressed_range_length(0, 1)", guarded(&ctx, || cas.uncompressed_range_length(0, 1)).is_ok()),
+        ];
+        if let Some((f, _)) = answers.iter().find(|a| a.1) {
+            witness(format!("{ctx}: {f} returns Ok"));
+        }
+    }
+    // opt-in probe (not part of C07 / C08 as stated: these accessors are reached only through a footer that was PARSED but not
+    // VALIDATED): footers that CasObject::deserialize accepts and on which the length accessors panic
+    if std::env::var("C07_PROBE_UNVALIDATED_FOOTER").is_ok() {
+        // (1) V0 footer (no unpacked offsets): uncompressed_range_length indexes the empty table
+        let mut file = v0_layout(&cashash, &hs, &[10, 20, 30]);
+        let il = file.len() as u32;
+        file.extend_from_slice(&il.to_le_bytes());
+        let cas = CasObject::deserialize(&mut Cursor::new(&file[..])).unwrap();
+        let ctx = "V0 footer of 3 chunks parsed by CasObject::deserialize (boundaries_version 0, no unpacked offsets)";
+        let _ = guarded(&format!("{ctx}: uncompressed_chunk_length(0)"), || cas.uncompressed_chunk_length(0).is_ok());
+        let _ = guarded(&format!("{ctx}: uncompressed_range_length(0, 1)"), || cas.uncompressed_range_length(0, 1).is_ok());
+        // (2) V1 footer with descending unpacked offsets: the subtraction overflows
+        let mut file = v1_layout(&cashash, &hs, &[10, 20, 30], &[6, 4, 2]);
+        let il = file.len() as u32;
+        file.extend_from_slice(&il.to_le_bytes());
+        let cas = CasObject::deserialize(&mut Cursor::new(&file[..])).unwrap();
+        let ctx = "V1 footer of 3 chunks with unpacked_chunk_offsets [6, 4, 2] parsed by CasObject::deserialize";
+        let _ = guarded(&format!("{ctx}: uncompressed_chunk_length(1)"), || cas.uncompressed_chunk_length(1).is_ok());
+        let _ = guarded(&format!("{ctx}: uncompressed_range_length(0, 2)"), || cas.uncompressed_range_length(0, 2).is_ok());
+    }
+}
+
+// ---------------------------------------------------------------------------------------------------------------------------------
+// (l) V0-footered xorbs
+// ---------------------------------------------------------------------------------------------------------------------------------
+
+fn check_v0_xorb(rt: &tokio::runtime::Runtime, base: &str, bytes: &[u8], footer_at: usize, w: &Walk, t: &Truth, full: bool) {
+    let hashes: Vec<MerkleHash> = t.list.iter().map(|x| x.0).collect();
+    let n = hashes.len();
+    let make = |body: &[u8], cashash: &MerkleHash, hs: &[MerkleHash], bounds: &[u32]| -> Vec<u8> {
+        let f = v0_layout(cashash, hs, bounds);
+        let mut v = body.to_vec();
+        v.extend_from_slice(&f);
+        v.extend_from_slice(&(f.len() as u32).to_le_bytes());
+        v
+    };
+    // expectation per validator: Some(true) accept, Some(false) reject, None = either (an acceptance must be sound)
+    let run = |what: &str, obj: &[u8], h: &MerkleHash, exp_seek: Option<bool>, exp_stream: Option<bool>| {
+        let ctx = format!("{base}, {what}");
+        // --- seekable validator: relies on the V0 footer, which has no unpacked offsets
+        let seek = guarded(&format!("{ctx}: CasObject::validate_cas_object"), || CasObject::validate_cas_object(&mut Cursor::new(obj), h));
+        match seek {
+            Ok(Some(cas)) => {
+                if exp_seek == Some(false) {
+                    witness(format!("{ctx}: the seekable validator ACCEPTS the object for hash {}", h.hex()));
+                }
+                let i = &cas.info;
+                let sound = walk(obj).ok().map(|wk| { let tt = truth_of(&wk.chunks); tt.root == *h && i.cashash == *h && i.num_chunks as usize == tt.list.len() && i.chunk_hashes == tt.list.iter().map(|x| x.0).collect::<Vec<_>>() && i.chunk_boundary_offsets == wk.boundaries }).unwrap_or(false);
+                if !sound || i.boundaries_version != 0 || !i.unpacked_chunk_offsets.is_empty() {
+                    witness(format!("{ctx}: the seekable validator ACCEPTS the object for hash {} and returns a footer (num_chunks {}, boundaries_version {}, {} unpacked offsets) that does not match the chunk data / the V0 form", h.hex(), i.num_chunks, i.boundaries_version, i.unpacked_chunk_offsets.len()));
+                }
+                if cas.info_length as usize != obj.len() - footer_at.min(obj.len()) - 4 && exp_seek == Some(true) {
+                    witness(format!("{ctx}: the seekable validator returns info_length {}, the V0 footer has {} bytes", cas.info_length, obj.len() - footer_at - 4));
+                }
+                // the accepted object must be usable as far as a V0 footer allows: ranges by stored offsets; no unpacked lengths (Err, not a panic)
+                let r = guarded(&format!("{ctx}: get_all_bytes on the accepted V0 object"), || cas.get_all_bytes(&mut Cursor::new(obj)));
+                if r.map(|d| d != w.chunks.concat()).unwrap_or(true) && exp_seek == Some(true) {
+                    witness(format!("{ctx}: get_all_bytes on the object accepted by the seekable validator does not return the chunk data"));
+                }
+                if let Ok(l) = guarded(&format!("{ctx}: uncompressed_chunk_length(0) on the accepted V0 object"), || cas.uncompressed_chunk_length(0)) {
+                    witness(format!("{ctx}: uncompressed_chunk_length(0) on an accepted V0 footer (no unpacked offsets) returns Ok({l})"));
+                }
+            },
+            Ok(None) | Err(_) => {
+                if exp_seek == Some(true) {
+                    witness(format!("{ctx}: the seekable validator REJECTS a well-formed V0 xorb for its own hash {}", h.hex()));
+                }
+            },
+        }
+        // --- streaming validator: stops at ident + version 0, builds a new footer, go_back_bytes = 8
+        let stream = guarded(&format!("{ctx}: validate_cas_object_from_async_read"), || rt.block_on(async { let mut r: &[u8] = obj; validate_cas_object_from_async_read(&mut r, h).await }));
+        match stream {
+            Ok(Some((cas, gb))) => {
+                if exp_stream == Some(false) {
+                    witness(format!("{ctx}: the streaming validator ACCEPTS the object for hash {}", h.hex()));
+                }
+                let why = match walk(obj) {
+                    Err(e) => Some(format!("the chunk section does not decode: {e}")),
+                    Ok(wk) => { let tt = truth_of(&wk.chunks); if tt.root != *h { Some(format!("the decoded chunks hash to {}", tt.root.hex())) } else { info_mismatch(&cas, &tt, &wk.boundaries, h) } },
+                };
+                if let Some(why) = why {
+                    witness(format!("{ctx}: the streaming validator ACCEPTS the object for hash {} but {why}", h.hex()));
+                }
+                if gb != Some(8) || cas.info_length != 0 {
+                    witness(format!("{ctx}: the streaming validator accepts the V0 object with go_back_bytes {gb:?} and info_length {}; documented: the 8 bytes of ident + version and 0", cas.info_length));
+                }
+            },
+            Ok(None) | Err(_) => {
+                if exp_stream == Some(true) {
+                    witness(format!("{ctx}: the streaming validator REJECTS a well-formed V0 xorb for its own hash {}", h.hex()));
+                }
+            },
+        }
+        decode_probe_impl(rt, || format!("both validators were run on: {ctx}"), false);
+    };
+    let body = &bytes[..footer_at];
+    let good = make(body, &t.root, &hashes, &w.boundaries);
+    run("stored under a V0 footer", &good, &t.root, Some(true), Some(true));
+    let mut other = t.root;
+    other[0] ^= 1 << 5;
+    run("stored under a V0 footer, validated for a hash with one bit changed", &good, &other, Some(false), Some(false));
+    if !full {
+        return;
+    }
+    run("stored under a V0 footer naming a hash with one bit changed, validated for that hash", &make(body, &other, &hashes, &w.boundaries), &other, Some(false), Some(false));
+    // (the streaming validator never reads a V0 footer, so what the footer says cannot make it reject: soundness decides)
+    run("stored under a V0 footer naming a hash with one bit changed, validated for the right hash", &make(body, &other, &hashes, &w.boundaries), &t.root, Some(false), None);
+    let mut hs = hashes.clone();
+    hs[n / 2][1] ^= 2;
+    run(&format!("stored under a V0 footer whose chunk hash #{} has one bit changed", n / 2), &make(body, &t.root, &hs, &w.boundaries), &t.root, Some(false), None);
+    let mut b = w.boundaries.clone();
+    b[n - 1] += 1;
+    run("stored under a V0 footer whose last boundary offset is one too large", &make(body, &t.root, &hashes, &b), &t.root, Some(false), None);
+    if n > 1 {
+        let mut b = w.boundaries.clone();
+        b[0] -= 1;
+        run("stored under a V0 footer whose first boundary offset is one too small", &make(body, &t.root, &hashes, &b), &t.root, Some(false), None);
+        run("stored under a V0 footer that lists one chunk less", &make(body, &t.root, &hashes[..n - 1], &w.boundaries[..n - 1]), &t.root, Some(false), None);
+        let cut = w.boundaries[n - 2] as usize;
+        run("minus its last chunk, stored under the V0 footer of the full list", &make(&body[..cut], &t.root, &hashes, &w.boundaries), &t.root, Some(false), Some(false));
+    }
+    let mut hs2 = hashes.clone(); hs2.push(compute_data_hash(b"")); let mut b2 = w.boundaries.clone(); b2.push(b2[n - 1] + 8);
+    run("stored under a V0 footer that lists one chunk more", &make(body, &t.root, &hs2, &b2), &t.root, Some(false), None);
+    // payload damaged under the V0 footer (soundness decides: a flipped bit in a compressed payload may be harmless)
+    let first_payload = 8 + (w.boundaries[0] as usize - 8) / 2;
+    if first_payload < w.boundaries[0] as usize {
+        let mut m = good.clone();
+        m[first_payload] ^= 0x04;
+        run(&format!("stored under a V0 footer, stored byte {first_payload} (payload of chunk 0) changed"), &m, &t.root, None, None);
+    }
+    // V0 footer cut short / followed by a byte
+    run("stored under a V0 footer, last byte missing", &good[..good.len() - 1], &t.root, Some(false), None);
+    let mut m = good.clone(); m.push(0);
+    run("stored under a V0 footer, one byte appended", &m, &t.root, Some(false), None);
+}
+
+// ---------------------------------------------------------------------------------------------------------------------------------
+// (m) text forms of hashes, hmac, from_slice
+// ---------------------------------------------------------------------------------------------------------------------------------
+
+fn b64url_nopad(b: &[u8]) -> String {
+    const A: &[u8; 64] = b"ABCDEFGHIJKLMNOPQRSTUVWXYZabcdefghijklmnopqrstuvwxyz0123456789-_";
+    let mut s = String::new();
+    for g in b.chunks(3) {
+        let v = (g[0] as u32) << 16 | (*g.get(1).unwrap_or(&0) as u32) << 8 | *g.get(2).unwrap_or(&0) as u32;
+        for k in 0..g.len() + 1 {
+            s.push(A[(v >> (18 - 6 * k) & 63) as usize] as char);
+        }
+    }
+    s
+}
+
+fn check_text_forms(rng: &mut StdRng, seed: u64) {
+    // the two hash functions against blake3 keyed with the published keys
+    for n in [0usize, 1, 63, 64, 65, 1023, 1024, 1025, 4096, 70_000] {
+        let d = random(rng, n);
+        let (lib_d, own_d) = (compute_data_hash(&d), hash_from_bytes(blake3::keyed_hash(&DATA_KEY, &d).as_bytes()));
+        let (lib_i, own_i) = (compute_internal_node_hash(&d), hash_from_bytes(blake3::keyed_hash(&INTERNAL_NODE_KEY, &d).as_bytes()));
+        if lib_d != own_d || lib_i != own_i {
+            witness(format!("on {n} random bytes (VERIF_SEED={seed}) compute_data_hash / compute_internal_node_hash give {} / {}, blake3 keyed with the published keys gives {} / {}", lib_d.hex(), lib_i.hex(), own_d.hex(), own_i.hex()));
+        }
+    }
+    let mut hashes: Vec<MerkleHash> = vec![
+        MerkleHash::default(), MerkleHash::from([u64::MAX; 4]), MerkleHash::from([1, 0, 0, 0]), MerkleHash::from([0, 0, 0, 1]), MerkleHash::from([0, 0, 0, 1 << 63]),
+        MerkleHash::from([0x0123_4567_89ab_cdef, 0x0000_0000_0000_000f, 0xf000_0000_0000_0000, 0x00ab_0000_0000_cd00]), MerkleHash::from([0xabcdef, 0xABCDEF00, 10, 16]),
+    ];
+    for k in 0..256u32 {
+        let mut w = [0u64; 4];
+        w[(k / 64) as usize] = 1 << (k % 64);
+        hashes.push(MerkleHash::from(w));
+    }
+    for _ in 0..300 {
+        hashes.push(MerkleHash::from([rng.random(), rng.random(), rng.random(), rng.random()]));
+    }
+    let key_a = MerkleHash::from([rng.random(), rng.random(), rng.random(), rng.random()]);
+    for h in &hashes {
+        let own_hex = format!("{:016x}{:016x}{:016x}{:016x}", h[0], h[1], h[2], h[3]);
+        let bytes = hash_bytes(h);
+        let own_b64 = b64url_nopad(&bytes);
+        let what = format!("hash with the words {:#x?}", [h[0], h[1], h[2], h[3]]);
+        let (hx, b6) = (guarded(&what, || h.hex()), guarded(&what, || h.base64()));
+        if hx != own_hex || format!("{h}") != own_hex || format!("{h:x}") != own_hex || format!("{h:?}") != own_hex {
+            witness(format!("{what}: hex() / Display / LowerHex / Debug give {hx} / {h} / {h:x} / {h:?}, four words of 16 lower-case hex digits are {own_hex}"));
+        }
+        if b6 != own_b64 {
+            witness(format!("{what}: base64() gives {b6}, URL-safe unpadded base64 of the 32 little-endian bytes is {own_b64}"));
+        }
+        match (guarded(&what, || MerkleHash::from_hex(&hx)), guarded(&what, || MerkleHash::from_base64(&b6))) {
+            (Ok(a), Ok(b)) if a == *h && b == *h => {},
+            (a, b) => witness(format!("{what}: from_hex(hex()) = {:?}, from_base64(base64()) = {:?}: the text forms do not round-trip", a.map(|x| x.hex()).map_err(|e| e.to_string()), b.map(|x| x.hex()).map_err(|e| e.to_string()))),
+        }
+        // bytes
+        if h.as_bytes() != bytes || <[u8; 32]>::from(*h) != bytes || Vec::<u8>::from(*h) != bytes || MerkleHash::from(bytes) != *h || MerkleHash::from(&bytes) != *h {
+            witness(format!("{what}: as_bytes / into [u8; 32] / from [u8; 32] disagree with the little-endian bytes of the four words"));
+        }
+        match (guarded(&what, || MerkleHash::from_slice(&bytes)), MerkleHash::try_from(&bytes[..])) {
+            (Ok(a), Ok(b)) if a == *h && b == *h => {},
+            _ => witness(format!("{what}: from_slice / try_from of its own 32 bytes does not give the hash back")),
+        }
+        // serde text form (hex::serde) and the derived serde form through JSON
+        match guarded(&what, || merklehash::data_hash::hex::serde::serialize(h, serde_json::value::Serializer)) {
+            Ok(serde_json::Value::String(s)) if s == own_hex => {},
+            other => witness(format!("{what}: hex::serde::serialize gives {other:?}, expected the string {own_hex}")),
+        }
+        match guarded(&what, || merklehash::data_hash::hex::serde::deserialize(serde_json::Value::String(own_hex.clone()))) {
+            Ok(a) if a == *h => {},
+            other => witness(format!("{what}: hex::serde::deserialize of {own_hex} gives {:?}", other.map(|x| x.hex()).map_err(|e| e.to_string()))),
+        }
+        match serde_json::to_string(h).ok().and_then(|s| serde_json::from_str::<MerkleHash>(&s).ok()) {
+            Some(a) if a == *h => {},
+            other => witness(format!("{what}: the serde form does not round-trip through JSON: {:?}", other.map(|x| x.hex()))),
+        }
+        // hmac = blake3 keyed with the key's bytes over the hash's bytes
+        for key in [MerkleHash::default(), key_a, *h] {
+            let want = hash_from_bytes(blake3::keyed_hash(&hash_bytes(&key), &bytes).as_bytes());
+            let got = guarded(&what, || h.hmac(key));
+            if got != want {
+                witness(format!("{what}: hmac under key {} gives {}, blake3 keyed with the key bytes over the hash bytes gives {}", key.hex(), got.hex(), want.hex()));
+            }
+        }
+        if h.hmac(MerkleHash::default()) == h.hmac(key_a) || h.hmac(key_a) == *h {
+            witness(format!("{what}: hmac does not depend on the key (zero key vs {})", key_a.hex()));
+        }
+    }
+    // strings that are not the text form of any hash.  General rule (round trip): Ok(h) only if re-encoding h gives the string back
+    // (hex digits compared case-insensitively: upper-case digits are accepted on HEAD).
+    let h = hashes[5];
+    let good = h.hex();
+    let mut bad_hex: Vec<String> = vec![
+        String::new(), good[..63].to_string(), format!("{good}0"), format!("0{good}"), good.repeat(2), format!("0x{}", &good[2..]), format!("{} ", &good[..63]), format!(" {}", &good[1..]),
+        good.to_uppercase(), format!("{}{}", good[..32].to_uppercase(), &good[32..]),
+        format!("\u{e9}{}", &good[2..]), format!("{}\u{e9}", &good[..62]), format!("{}\u{e9}{}", &good[..15], &good[17..]), format!("{}\u{20ac}{}", &good[..30], &good[33..]),
+        "\u{ff10}".repeat(21) + "0", // full-width digits: 64 bytes, no ASCII hex digit
+    ];
+    for pos in [0usize, 15, 16, 17, 31, 32, 47, 48, 63] {
+        for c in ['g', 'G', '+', '-', ' ', '_', 'x', '\0', '\n', '/', ':', '@', '`'] {
+            let mut s: Vec<u8> = good.clone().into_bytes();
+            s[pos] = c as u8;
+            bad_hex.push(String::from_utf8(s).unwrap());
+        }
+    }
+    for s in &bad_hex {
+        let what = format!("from_hex({s:?}) ({} bytes)", s.len());
+        let is_hex = s.len() == 64 && s.bytes().all(|c| c.is_ascii_hexdigit());
+        match guarded(&what, || MerkleHash::from_hex(s)) {
+            Ok(x) if is_hex && x.hex() == s.to_lowercase() => {},
+            Ok(x) => witness(format!("{what} returns Ok({}) although the string is not 64 hex digits / does not round-trip", x.hex())),
+            Err(_) if !is_hex => {},
+            Err(_) => witness(format!("{what} is refused although the string consists of 64 hex digits")),
+        }
+        let _ = guarded(&what, || merklehash::data_hash::hex::serde::deserialize(serde_json::Value::String(s.clone())).map(|x| x.hex()).map_err(|e| e.to_string()));
+    }
+    let good = h.base64();
+    let mut bad_b64: Vec<String> = vec![
+        String::new(), good[..42].to_string(), format!("{good}A"), format!("{good}="), format!("{good}=="), format!("{}=", &good[..42]), good.replace('-', "+").replace('_', "/"), format!(" {}", &good[1..]),
+        format!("{}\u{e9}", &good[..41]), good.repeat(2), h.hex(),
+    ];
+    // a last character with non-zero unused bits (43 characters carry 258 bits, 2 must be zero)
+    for c in ['B', 'C', 'D', 'F', '_', '9'] {
+        bad_b64.push(format!("{}{c}", &good[..42]));
+    }
+    for pos in [0usize, 21, 41, 42] {
+        for c in ['+', '/', '=', '.', ' ', '\n', '~'] {
+            let mut s: Vec<u8> = good.clone().into_bytes();
+            s[pos] = c as u8;
+            bad_b64.push(String::from_utf8(s).unwrap());
+        }
+    }
+    // strings of 43 valid characters for standard-alphabet hashes (the all-ones hash encodes with '_' throughout)
+    bad_b64.push(MerkleHash::from([u64::MAX; 4]).base64().replace('_', "/"));
+    for s in &bad_b64 {
+        let what = format!("from_base64({s:?}) ({} bytes)", s.len());
+        match guarded(&what, || MerkleHash::from_base64(s)) {
+            Ok(x) if x.base64() == *s && b64url_nopad(&hash_bytes(&x)) == *s => {},
+            Ok(x) => witness(format!("{what} returns Ok({}) whose base64 form is {}: the text form does not round-trip", x.hex(), x.base64())),
+            Err(_) => {},
+        }
+    }
+    for n in [0usize, 1, 8, 31, 33, 64] {
+        let v = vec![7u8; n];
+        if guarded("from_slice", || MerkleHash::from_slice(&v)).is_ok() || MerkleHash::try_from(&v[..]).is_ok() {
+            witness(format!("MerkleHash::from_slice / try_from accept a slice of {n} bytes"));
+        }
+    }
+}
+
+// ---------------------------------------------------------------------------------------------------------------------------------
+// (n) byte grouping variants and the slice / reader codec API
+// ---------------------------------------------------------------------------------------------------------------------------------
+
+fn check_bg4_and_codec_api(rng: &mut StdRng) {
+    use cas_object::byte_grouping::bg4;
+    let own_split = |d: &[u8]| -> Vec<u8> { (0..4).flat_map(|k| d.iter().skip(k).step_by(4).copied().collect::<Vec<u8>>()).collect() };
+    let mut lens: Vec<usize> = (0..=70).collect();
+    lens.extend([127, 128, 129, 255, 256, 257, 1000, 1001, 1002, 1003, 4096, 65_535, 65_536, 65_537, 131_072]);
+    for n in lens {
+        let d = if n % 3 == 0 { floats(rng, n) } else { random(rng, n) };
+        let what = format!("{n} bytes");
+        let g = own_split(&d);
+        if bg4_regroup(&g) != d {
+            println!("infrastructure: the reference split / regroup are not inverse at {n} bytes");
+            std::process::exit(2);
+        }
+        let sep = guarded(&what, || bg4::bg4_split_separate(&d));
+        let answers = [
+            ("bg4_split", guarded(&what, || bg4::bg4_split(&d)) == g),
+            ("bg4_split_together", guarded(&what, || bg4::bg4_split_together(&d)) == g),
+            ("bg4_split_separate", sep.concat() == g && sep[0].len() == n / 4 + (n % 4 >= 1) as usize && sep[1].len() == n / 4 + (n % 4 >= 2) as usize && sep[2].len() == n / 4 + (n % 4 >= 3) as usize && sep[3].len() == n / 4),
+            ("bg4_regroup", guarded(&what, || bg4::bg4_regroup(&g)) == d),
+            ("bg4_regroup_together", guarded(&what, || bg4::bg4_regroup_together(&g)) == d),
+            ("bg4_regroup_together_combined_write_4", guarded(&what, || bg4::bg4_regroup_together_combined_write_4(&g)) == d),
+            ("bg4_regroup_together_combined_write_8", guarded(&what, || bg4::bg4_regroup_together_combined_write_8(&g)) == d),
+            ("bg4_regroup_separate", guarded(&what, || bg4::bg4_regroup_separate(&sep)) == d),
+        ];
+        if let Some((f, _)) = answers.iter().find(|a| !a.1) {
+            witness(format!("byte grouping of {n} bytes: {f} differs from \"byte k of every 4-byte group goes to plane k, planes concatenated\""));
+        }
+        // slice / reader API of every scheme
+        for scheme in [CompressionScheme::None, CompressionScheme::LZ4, CompressionScheme::ByteGrouping4LZ4] {
+            let what = format!("{n} bytes under scheme {scheme:?}");
+            let z = guarded(&what, || scheme.compress_from_slice(&d).map(|c| c.into_owned())).unwrap_or_else(|e| witness(format!("compress_from_slice fails on {what}: {e}")));
+            if decode_payload(scheme as u8, &z).as_deref() != Some(&d[..]) {
+                witness(format!("compress_from_slice of {what} gives {} bytes that do not decode to the input by the format rules", z.len()));
+            }
+            match guarded(&what, || scheme.decompress_from_slice(&z).map(|c| c.into_owned())) {
+                Ok(x) if x == d => {},
+                other => witness(format!("decompress_from_slice(compress_from_slice(..)) of {what} gives {:?}", other.map(|x| x.len()).map_err(|e| e.to_string()))),
+            }
+            let mut out = vec![];
+            match guarded(&what, || scheme.decompress_from_reader(&mut Cursor::new(&z[..]), &mut out)) {
+                Ok(l) if l as usize == n && out == d => {},
+                other => witness(format!("decompress_from_reader of {what} reports {other:?} and writes {} bytes", out.len())),
+            }
+        }
+        let via_fn = [
+            ("lz4_compress_from_slice / lz4_decompress_from_slice", guarded(&what, || cas_object::lz4_compress_from_slice(&d).and_then(|z| cas_object::lz4_decompress_from_slice(&z))).ok() == Some(d.clone())),
+            ("bg4_lz4_compress_from_slice / bg4_lz4_decompress_from_slice", guarded(&what, || cas_object::bg4_lz4_compress_from_slice(&d).and_then(|z| cas_object::bg4_lz4_decompress_from_slice(&z))).ok() == Some(d.clone())),
+            ("bg4_lz4_compress_from_slice (frame of the grouped bytes)", guarded(&what, || cas_object::bg4_lz4_compress_from_slice(&d)).ok().and_then(|z| lz4_frame_decode(&z)) == Some(g.clone())),
+        ];
+        if let Some((f, _)) = via_fn.iter().find(|a| !a.1) {
+            witness(format!("{f} does not round-trip {n} bytes"));
+        }
+        // automatic selection answers one of the two compressing schemes, the same for the same data
+        let c1 = guarded(&what, || CompressionScheme::choose_from_data(&d));
+        if c1 == CompressionScheme::None || c1 != CompressionScheme::choose_from_data(&d) {
+            witness(format!("choose_from_data on {n} bytes answers {c1:?} / differently on a second call"));
+        }
+    }
+    for v in 0..=255u8 {
+        match (CompressionScheme::try_from(v), v) {
+            (Ok(CompressionScheme::None), 0) | (Ok(CompressionScheme::LZ4), 1) | (Ok(CompressionScheme::ByteGrouping4LZ4), 2) => {},
+            (Err(_), 3..=255) => {},
+            (other, _) => witness(format!("CompressionScheme::try_from({v}) gives {:?}", other.map_err(|e| e.to_string()))),
+        }
+    }
+}
+
+// ---------------------------------------------------------------------------------------------------------------------------------
+// (p) LocalClient: put stores a xorb that decodes, validates and is read back by get
+// ---------------------------------------------------------------------------------------------------------------------------------
+
+fn check_local_client(rt_local: &tokio::runtime::Runtime, lists: &[(String, Vec<Vec<u8>>, bool)]) {
+    use cas_client::{LocalClient, UploadClient};
+    let rt = tokio::runtime::Builder::new_multi_thread().worker_threads(2).enable_all().build().unwrap();
+    let dir = tempfile::tempdir().unwrap();
+    let base = dir.path().join("store");
+    let client = match catch_unwind(AssertUnwindSafe(|| rt.block_on(async { LocalClient::new(&base, None) }))) {
+        Ok(Ok(c)) => c,
+        other => {
+            println!("infrastructure: LocalClient::new failed: {:?}", other.map(|r| r.map(|_| ()).map_err(|e| e.to_string())).map_err(|_| "panic"));
+            std::process::exit(2);
+        },
+    };
+    let mut stored = 0usize;
+    for (name, chunks, _) in lists.iter().filter(|l| l.1.iter().all(|c| !c.is_empty()) && l.1.iter().map(|c| c.len()).sum::<usize>() < 300_000).take(14) {
+        let ctx = format!("LocalClient over a fresh directory, chunk list '{name}' ({})", describe(chunks));
+        let t = truth_of(chunks);
+        let data = chunks.concat();
+        let cb: Vec<(MerkleHash, u32)> = t.list.iter().zip(&t.unpacked).map(|((h, _), o)| (*h, *o)).collect();
+        let n = guarded(&ctx, || rt.block_on(client.put("default", &t.root, data.clone(), cb.clone()))).unwrap_or_else(|e| witness(format!("{ctx}: put fails: {e}")));
+        let path = base.join("xorbs").join(format!("default.{}", format!("{:016x}{:016x}{:016x}{:016x}", t.root[0], t.root[1], t.root[2], t.root[3])));
+        let file = std::fs::read(&path).unwrap_or_else(|e| witness(format!("{ctx}: put returned Ok({n}) but {path:?} cannot be read: {e}")));
+        if n != file.len() {
+            witness(format!("{ctx}: put reports {n} bytes written, the xorb file has {}", file.len()));
+        }
+        match walk(&file) {
+            Ok(w) if w.chunks == *chunks && w.footer_at.is_some() => {},
+            other => witness(format!("{ctx}: the stored xorb file does not decode to the chunks put: {:?}", other.map(|w| w.chunks.len()))),
+        }
+        validate_both(rt_local, &format!("{ctx}: the stored xorb file"), &file, &t.root, Expect::Accept, Expect::Accept);
+        match guarded(&ctx, || client.get(&t.root)) {
+            Ok(d) if d == data => {},
+            other => witness(format!("{ctx}: get returns {:?}, {} bytes were put", other.map(|d| d.len()).map_err(|e| e.to_string()), data.len())),
+        }
+        match guarded(&ctx, || rt.block_on(client.exists("default", &t.root))) {
+            Ok(true) => {},
+            other => witness(format!("{ctx}: exists answers {other:?} after put")),
+        }
+        // a second put of the same object writes nothing; the file is unchanged
+        match guarded(&ctx, || rt.block_on(client.put("default", &t.root, data.clone(), cb.clone()))) {
+            Ok(0) if std::fs::read(&path).ok().as_deref() == Some(&file[..]) => {},
+            other => witness(format!("{ctx}: a second put of the same object returns {other:?} / changes the file")),
+        }
+        stored += 1;
+        // arguments that put must refuse: nothing, boundaries not ending at the data's end
+        let mut other = t.root;
+        other[1] ^= 0xff;
+        let mut short = cb.clone();
+        short.last_mut().unwrap().1 -= 1;
+        for (what, d, c) in [("no data", vec![], cb.clone()), ("no chunk list", data.clone(), vec![]), ("a last boundary one short of the data", data.clone(), short)] {
+            if data.len() == 1 && what.starts_with("a last") {
+                continue;
+            }
+            if let Ok(k) = guarded(&ctx, || rt.block_on(client.put("default", &other, d.clone(), c.clone()))) {
+                witness(format!("{ctx}: put with {what} returns Ok({k})"));
+            }
+            if matches!(guarded(&ctx, || rt.block_on(client.exists("default", &other))), Ok(true)) {
+                witness(format!("{ctx}: after the refused put with {what} the object exists"));
+            }
+        }
+        match guarded(&ctx, || client.get(&other)) {
+            Err(_) => {},
+            Ok(d) => witness(format!("{ctx}: get of a hash that was never put returns {} bytes", d.len())),
+        }
+    }
+    match guarded("LocalClient::get_all_entries", || client.get_all_entries()) {
+        Ok(e) if e.len() == stored => {},
+        other => witness(format!("LocalClient::get_all_entries lists {:?} entries after {stored} objects were put", other.map(|e| e.len()).map_err(|e| e.to_string()))),
+    }
+    drop(client);
+    drop(rt);
 }
